@@ -30,6 +30,8 @@ type limitSite struct {
 var incRe = regexp.MustCompile(`^\(*([A-Za-z_][A-Za-z0-9_]*)(?: \+ 1\))+$`)
 
 func runC05(c *core.Ctx) {
+	c.Rule("ORDPOS", "ORDER BY <position> is resolved or rejected, never sorted as a constant")
+	checkOrderByOrdinal(c, "ORDPOS")
 	c.Rule("FMTSTR", "printf-style calls have constant format strings")
 	checkFormatStrings(c, "FMTSTR", []string{"outputs", "cmd", "execution", "physical", "logical", "datasources", "functions", "table_valued_functions", "aggregates", "octosql", "helpers"})
 	c.Rule("PARSECOV", "no clause the grammar accepts is silently ignored by the parser")
